@@ -8,6 +8,7 @@ import (
 	"reflect"
 	"strings"
 	"sync"
+	"sync/atomic"
 	"time"
 
 	"github.com/ansible/receptor/pkg/netceptor"
@@ -161,6 +162,7 @@ type sock struct {
 	PC        netceptor.PacketConner
 	done      chan struct{}
 	slowRead  time.Duration
+	noted     int64 // notifications received so far (atomic)
 }
 
 // openSock binds a datagram socket with a reader and an unreachable subscription feeding obs.
@@ -203,6 +205,7 @@ func openSock(n *netceptor.Netceptor, node, svc string, obs *observers, slowRead
 	if ch != nil {
 		go func() {
 			for m := range ch {
+				atomic.AddInt64(&s.noted, 1)
 				obs.mu.Lock()
 				obs.notes = append(obs.notes, noteRec{Node: node, Svc: s.Svc, N: m})
 				obs.cond.Broadcast()
